@@ -28,6 +28,7 @@ type hunt struct {
 type huntObs struct {
 	certBy map[int]PValue
 	botBy  map[int]bool
+	probed bool
 }
 
 func setHdr(f *flight, dec any) {
@@ -41,7 +42,7 @@ func setHdr(f *flight, dec any) {
 
 // huntObserve is fed every attest vote an honest node originates.
 func (s *Sim) huntObserve(n *Node, v UVote) {
-	if !s.cfg.Hunt || s.hunt != nil || v.R.Step < stepCert {
+	if v.R.Step < stepCert {
 		return
 	}
 	if s.huntSeen == nil {
@@ -58,15 +59,25 @@ func (s *Sim) huntObserve(n *Node, v UVote) {
 	} else if v.R.Proposal.IsBottom() && v.R.Step < stepLate {
 		o.botBy[n.id] = true
 	}
-	if len(o.certBy) == 0 || len(o.botBy) == 0 {
+	if _, c := o.certBy[n.id]; c && o.botBy[n.id] && !o.probed {
+		o.probed = true
+		s.stat("probe.same_node_cert_and_next_bottom", 1) // reach probe, not an oracle
+	}
+	if !s.cfg.Hunt || s.hunt != nil || len(o.certBy) == 0 || len(o.botBy) == 0 {
 		return
 	}
 	// isolate a cert-voter, preferably one that also next-voted bottom (the strongest danger sign)
 	iso := -1
-	for id := range s.nodes {
+	var isoStake uint64
+	for id, nd := range s.nodes {
 		if _, ok := o.certBy[id]; ok && o.botBy[id] {
-			iso = id
-			break
+			var st uint64
+			for _, a := range nd.accts {
+				st += s.cfg.Stake[a.Idx]
+			}
+			if iso < 0 || st < isoStake { // the lighter the isolated node, the likelier the rest still has a quorum
+				iso, isoStake = id, st
+			}
 		}
 	}
 	if iso < 0 {
@@ -82,14 +93,28 @@ func (s *Sim) huntObserve(n *Node, v UVote) {
 			}
 		}
 	}
-	s.hunt = &hunt{round: v.R.Round, period: v.R.Period, val: o.certBy[iso], iso: iso, until: s.step + 900}
-	s.log.Add("  HUNT: isolate n%d for r%d p%d value %s", iso, v.R.Round, v.R.Period, s.hunt.val.Short())
+	s.hunt = &hunt{round: v.R.Round, period: v.R.Period, val: o.certBy[iso], iso: iso, until: s.step + 3000}
+	s.log.Add("  HUNT: isolate n%d for r%d p%d value %s same-node=%v", iso, v.R.Round, v.R.Period, s.hunt.val.Short(), o.botBy[iso])
 	s.stat("hunt_started", 1)
+	if o.botBy[iso] {
+		s.stat("hunt_started_same_node", 1)
+	}
 }
 
 func (s *Sim) huntAllows(f *flight) bool {
 	h := s.hunt
 	if h == nil {
+		return true
+	}
+	allDone := true
+	for _, n := range s.nodes {
+		if !n.adv && n.alive && n.led.next() <= h.round {
+			allDone = false
+		}
+	}
+	if allDone {
+		s.hunt = nil
+		s.log.Add("  hunt over (round committed everywhere)")
 		return true
 	}
 	if s.step > h.until {
